@@ -4,6 +4,7 @@ package c06
 import (
 	"encoding/hex"
 	"encoding/json"
+	"errors"
 	"fmt"
 	"sort"
 	"strings"
@@ -208,7 +209,17 @@ func runProduct(r *ev.Run) {
 		w := mk()
 		base := w.stateKey()
 		for fi, fm := range firsts {
-			for _, sm := range seconds {
+			for _, sm0 := range append(append([]struct{ name, text string }{}, seconds...), struct{ name, text string }{name: "nothing+close-fails"}) {
+				sm := sm0
+				// the refused connection's Close() reports an error (a reset peer cannot be sent
+				// the farewell): one more environment answer that may change nothing
+				closeFails := sm.name == "nothing+close-fails"
+				if closeFails {
+					sm.name = "nothing"
+					if fm.accepted {
+						continue
+					}
+				}
 				if online && sm.name != "nothing" && sm.name != "chat" {
 					continue // second pass (operators online): the first message and one follow-up
 				}
@@ -216,6 +227,9 @@ func runProduct(r *ev.Run) {
 					continue // after a valid login anything may happen: C11/C16 cover it
 				}
 				ws := fake.NewWS("X")
+				if closeFails {
+					ws.Raw.CloseErr = errors.New("tls: failed to send closeNotify alert (but connection was closed anyway)")
+				}
 				switch fm.kind {
 				case "text":
 					ws.SendText(fm.text)
